@@ -142,6 +142,12 @@ def runLine (l : String) : String :=
   | some (.list (.atom "attrprobe" :: as)) =>
     let xs := (as.filterMap Sexp.str?).map String.toList
     s!"{id}\tattrs\t{if derivesTraitSrc xs "ToJson".toList then "yes" else "no"}\t{if derivesTraitSrc xs "ToString".toList then "yes" else "no"}"
+  | some (.list [.atom "hygiene", .atom method, .atom top, .list (.atom "case" :: _ :: .list (.atom "defs" :: defs) :: _)]) =>
+    match optMapM decDef defs with
+    | some Δ =>
+      let ok := Δ.all fun d => ((if method == "to_json" then genJson bindFresh d else genString bindFresh d).hygienic [top])
+      s!"{id}\thygiene\t{if ok then "hygienic" else "captured"}"
+    | none => s!"{id}\tparse-error"
   | some (.list [.atom "oracle", .list (.atom "defs" :: defs), .list (.atom "vals" :: vals), .list (.atom "lines" :: lines)]) =>
     oracleLine id defs vals lines
   | some (.list [.atom "fmt", size, bits]) =>
